@@ -172,6 +172,11 @@ mut("C05", "new-unwrap", "unwrap", "a new unwrap on user-controlled text",
                 }
             };''', '''            let end = caps[2].to_string().parse::<i32>().unwrap();'''))
 
+mut("C06", "member-stop-not-recorded", "R06-9|shell::Shell::mark_job_member_stopped|exact-mark", "a stopped member is not recorded",
+    (S, "                    job.pids_stopped.insert(pid);", "                    let _ = pid;"))
+mut("C06", "member-continue-clears-all", "R06-9|shell::Shell::mark_job_member_continued|exact-mark",
+    "continuing one member forgets every member's stop mark",
+    (S, "                    job.pids_stopped.remove(&pid);", "                    job.pids_stopped.clear();"))
 # ------------------------------------------------------------------ C07
 mut("C07", "no-give-back", "R07-1|execute::run_proc", "terminal stays with the finished job",
     (E, '''            let (term_given, cr) = core::run_pipeline(sh, &cl, tty, capture, log_cmd);
@@ -929,6 +934,10 @@ mut("C15", "set-e-ignored", "R15-3", "set -e does not stop the block",
                 }
             }
 ''', ""))
+mut("C15", "func-status-or", "R15-1|core::try_run_func|status", "a function's status is the OR of its commands' statuses, not the last one",
+    (C, "            status = cr.status;", "            status |= cr.status;"))
+mut("C15", "set-e-narrowed", "R15-3", "set -e stops the block only under a further condition (not in a login shell)",
+    (SC, "if status != 0 && sh.exit_on_error {", "if status != 0 && sh.exit_on_error && !sh.is_login {"))
 mut("C15", "source-status-lost", "builtins::source::run", "source always returns 0",
     ("src/builtins/source.rs", '''    let status = scripting::run_script(sh, &args);
     cr.status = status;''', '''    let _status = scripting::run_script(sh, &args);'''))
